@@ -571,7 +571,7 @@ func (rc *ruleCtx) schedParams() {
 		}
 		return "?"
 	}
-	if x.In.Origin == "X" {
+	if len(x.In.Roles) > 0 {
 		want := ""
 		if x.In.HasConcurrency {
 			want = "conc"
